@@ -450,7 +450,7 @@ def run(c):
 
 
 def replay(c, r):
-    hist = r.get("history")
+    hist = r.get("history") or (r if "base" in r and "steps" in r else None)      # a replay file, or a corpus history itself
     if not hist:
         print("replay: this file names a broken obligation, no concrete input:", r.get("what"))
         return 1
